@@ -255,7 +255,9 @@ def decide(pid, tier, jobs, repo, seed, only=None, verbose=False):
     pending = {}
     ctxmp = mp.get_context('fork')
     queue = list(reversed(tasks))
-    with ProcessPoolExecutor(max_workers=jobs, mp_context=ctxmp) as pool:
+    pool = ProcessPoolExecutor(max_workers=jobs, mp_context=ctxmp)
+    pool_broke = None
+    try:
         while queue or pending:
             while queue and len(pending) < jobs * 2:
                 t = queue.pop()
@@ -263,7 +265,13 @@ def decide(pid, tier, jobs, repo, seed, only=None, verbose=False):
             done, _ = wait(list(pending), timeout=1.0, return_when=FIRST_COMPLETED)
             for fut in done:
                 t = pending.pop(fut)
-                r = fut.result()
+                try:
+                    r = fut.result()
+                except BaseException as e:        # a worker died (killed, out of memory): no verdict from this chunk
+                    per_h[t['harness']]['crash'].append('worker lost: %r' % (e,))
+                    if type(e).__name__ == 'BrokenProcessPool':
+                        raise
+                    continue
                 st = per_h[t['harness']]
                 if 'crash' in r:
                     st['crash'].append(r['crash'])
@@ -312,6 +320,21 @@ def decide(pid, tier, jobs, repo, seed, only=None, verbose=False):
                     except Exception:
                         pass
                 break
+    except BaseException as e:
+        if isinstance(e, KeyboardInterrupt):
+            raise
+        pool_broke = repr(e)
+    finally:
+        try:
+            pool.shutdown(wait=False, cancel_futures=True)
+        except Exception:
+            pass
+    if pool_broke:
+        # what was found so far is still reported; the run as a whole is inconclusive, never a pass
+        timed_out = True
+        for st in per_h.values():
+            st['crash'].append('worker pool broke: %s' % pool_broke)
+            break
     explore_s = time.time() - t_start
 
     # ---- witness validation against the plain library -----------------------------
